@@ -10,6 +10,9 @@ const PATTERNS: &[&str] = &[
 const PATHS: &[&str] = &[
     "/", "/a", "/a/b", "/a/b/c", "/ab", "/b", "/a/", "/a/x/c", "/x.html", "/a/x.html", "/é/ü", "/xyz", "/x1y2z", "//", "/A",
     "/a/b?q=/zzz", "/?x", "/a?*", "/nothing/here",
+    // request targets that are not in origin form (asterisk form, absolute form, no leading slash): patterns are matched
+    // against them exactly as registered
+    "*", "http://example.com/a/b", "a", "ab", "a/b", "xb",
 ];
 // host patterns are compared with the Host value as the client wrote it, byte for byte: spellings with capitals on either side
 const HOST_PATTERNS: &[&str] = &["example.com", "*.example.com", "a.*", "*:8080", "localhost", "*.com", "ex*le.com", "é.example.com",
